@@ -25,6 +25,18 @@ CHECKS = {
         text='Every word of segment templates (kind x start relation x control relation x end target x arc parameters) up to the bound is built, serialised under all 8 option combinations and re-parsed; the composition must be the identity (exact in absolute form, rounding-bounded in relative form). The serialiser and parser are small transducers whose defects are interactions between neighbouring segments and options, which bounded-exhaustive words reach.',
         note='Trusted: mc/refsvg.py as independent reader. Bound: word length (full alphabet <=2 quick / <=3 thorough; reduced alphabet <=3 / <=4; closed-through-start family <=5 / <=6), six coordinate embeddings, arc pool of six.',
         design='4/C01'),
+    'C03': dict(
+        level='model_checking',
+        technique='degree certificate (real methods executed on degree-tracking ring elements) + exhaustive exact evaluation on the full product grid of Gaussian rationals (decides the polynomial identities for all inputs); exhaustive float grid for the rounding claim',
+        text='Each identity (point/poly/points/poly2bez/bez2poly/derivative of every order) is a polynomial identity; the real method is run on degree-tracking elements to bound its degree per variable and then on every point of the full product grid with exact arithmetic, which by the grid lemma decides it for all complex control points and all t. The float claim is checked on every (shape, scale, t, representation) of the stated grid against exact rational evaluation.',
+        note='Trusted: grid lemma; soundness of the degree tracker (value-dependent operations raise); Python Fraction arithmetic. If the implementation stops being ring-polymorphic the run reports grid_only (all_inputs_certificate false) instead of a certificate.',
+        design='4/C03'),
+    'C19': dict(
+        level='model_checking',
+        technique='per-degree degree certificate + exhaustive exact product grids for the Bezier helpers; for polyroots: every root multiset of the alphabet x every permutation of the numpy.roots answer (environment enumeration through a seam); exhaustive multiplicity patterns for rational_limit',
+        text='Identities for degrees 0..8 are decided for all inputs as in C03. polyroots/polyroots01 depend on the order in which numpy returns roots, an environment answer the library does not control: every permutation (all n! up to 7/8 roots) of every multiset mixing simple, clustered, complex and out-of-range roots is fed through the real filter and every well-separated simple root must come back exactly once.',
+        note='Trusted: numpy.roots accuracy for simple roots (1e-6); the seam replaces numpy.roots only inside this check. Roots exactly on the condition boundary are not demanded.',
+        design='4/C19'),
 }
 
 NOT_YET = {}
